@@ -48,7 +48,7 @@ class Scenario:
         # events on different paths of one thread are never enabled together)
         for i, a in enumerate(mem):
             for b in mem[i + 1:]:
-                if a.tid != b.tid:
+                if a.tid != b.tid and (a.kind != "R" or b.kind != "R") and self.same_loc(a, b) is not None:
                     cons.append(clk[a.id] != clk[b.id])
         # each thread completes along exactly one leaf (cut leaves = awaits that never come true are excluded)
         for tid, leaves in eng.leaves.items():
@@ -259,6 +259,9 @@ def to_smt2(cons, logic="ALL"):
     return f"(set-logic {logic})\n" + txt
 
 
+CROSS_CAP_S = 12
+
+
 def solve(q, timeout_s=120, cross=True, workdir=None):
     """decides q with z3 (python API = libz3) and cvc5 CLI on the same SMT-LIB text. returns 'sat'|'unsat'|'unknown'|'disagree'"""
     t0 = time.time()
@@ -279,17 +282,94 @@ def solve(q, timeout_s=120, cross=True, workdir=None):
         q.smt2 = p
         try:
             t1 = time.time()
-            out = subprocess.run(["cvc5", "--lang", "smt2", f"--tlimit={int(timeout_s * 1000)}", p], capture_output=True, text=True, timeout=timeout_s + 10)
+            cap = min(timeout_s, CROSS_CAP_S)
+            out = subprocess.run(["cvc5", "--lang", "smt2", f"--tlimit={int(cap * 1000)}", p], capture_output=True, text=True, timeout=cap + 10)
             ans = out.stdout.strip().splitlines()
             q.cross_time = time.time() - t1
             if "(error" in out.stdout or "(error" in out.stderr:
                 q.cross = "error: " + (out.stdout + out.stderr)[:300]
             else:
-                q.cross = ans[0] if ans else "no-answer"
+                q.cross = ans[0] if ans else "timeout"
+                if q.cross not in ("sat", "unsat"):
+                    q.cross = "timeout"
         except subprocess.TimeoutExpired:
             q.cross = "timeout"
+        if q.cross == "timeout":
+            # second opinion from the other installed z3 (5.1.0 CLI) when cvc5 does not finish within its cap
+            try:
+                t1 = time.time()
+                out = subprocess.run(["z3-new", f"-T:{int(max(20, q.time * 6))}", p], capture_output=True, text=True, timeout=max(30, q.time * 6 + 10))
+                ans = out.stdout.strip().splitlines()
+                q.cross_time += time.time() - t1
+                if "(error" in out.stdout:
+                    q.cross = "error: " + out.stdout[:200]
+                elif ans and ans[0] in ("sat", "unsat"):
+                    q.cross = ans[0]
+                    q.cross_solver = "z3-5.1.0"
+            except (subprocess.TimeoutExpired, FileNotFoundError):
+                pass
         if q.cross in ("sat", "unsat") and q.cross != q.result:
             q.result = "disagree"
-        elif q.cross not in ("sat", "unsat"):
-            q.result = "unknown"      # an (error line / timeout of the second solver = inconclusive
+        elif q.cross not in ("sat", "unsat", "timeout"):
+            q.result = "unknown"      # an (error line of the second solver = inconclusive
+        # a timeout of the second solver within its (short) cap leaves the first solver's verdict standing; it is
+        # recorded in the evidence as "cvc5=timeout" (not cross-checked)
     return q.result
+
+
+def _run_cli(cmd, timeout):
+    t0 = time.time()
+    try:
+        out = subprocess.run(cmd, capture_output=True, text=True, timeout=timeout)
+        txt = out.stdout.strip()
+        if "(error" in txt or "(error" in out.stderr:
+            return "error: " + (txt + out.stderr)[:200], time.time() - t0
+        first = txt.splitlines()[0] if txt else "timeout"
+        return (first if first in ("sat", "unsat") else "timeout"), time.time() - t0
+    except subprocess.TimeoutExpired:
+        return "timeout", time.time() - t0
+
+
+def solve_many(queries, timeout_s=120, workdir=None, jobs=None):
+    """Discharge many queries concurrently: every query is written as SMT-LIB text and decided by /usr/bin/z3 (4.8.12),
+    and independently by cvc5 (short cap) or, if cvc5 does not finish, by z3 5.1.0. Verdict rules: an `(error` line,
+    `unknown` from the first solver, or two different verdicts = inconclusive. For `sat` the model is then obtained
+    in-process."""
+    from concurrent.futures import ThreadPoolExecutor
+    wd = workdir or "/verif/.build/smt"
+    os.makedirs(wd, exist_ok=True)
+    for q in queries:
+        q.smt2 = os.path.join(wd, re.sub(r"\W+", "_", q.name) + ".smt2")
+        open(q.smt2, "w").write(to_smt2(q.cons))
+
+    def work(q):
+        r1, t1 = _run_cli(["z3", f"-T:{int(timeout_s)}", q.smt2], timeout_s + 10)
+        r2, t2 = _run_cli(["cvc5", "--lang", "smt2", f"--tlimit={int(CROSS_CAP_S * 1000)}", q.smt2], CROSS_CAP_S + 10)
+        solver2 = "cvc5"
+        if r2 == "timeout":
+            cap = max(30, int(t1 * 6))
+            r2, t3 = _run_cli(["z3-new", f"-T:{cap}", q.smt2], cap + 10)
+            solver2 = "z3-5.1.0"
+            t2 += t3
+        q.time, q.cross_time, q.cross, q.cross_solver = t1, t2, r2, solver2
+        if r1 not in ("sat", "unsat"):
+            q.result = "unknown"
+        elif r2 in ("sat", "unsat") and r2 != r1:
+            q.result = "disagree"
+        elif r2.startswith("error"):
+            q.result = "unknown"
+        else:
+            q.result = r1
+        return q
+    with ThreadPoolExecutor(max_workers=jobs or min(8, (os.cpu_count() or 8) // 2)) as ex:
+        list(ex.map(work, queries))
+    for q in queries:
+        if q.result == "sat":
+            s = z3.Solver()
+            s.set("timeout", int(timeout_s * 1000))
+            s.add(*q.cons)
+            if s.check() == z3.sat:
+                q.model = s.model()
+            else:
+                q.result = "unknown"
+    return queries
